@@ -1891,7 +1891,10 @@ impl<'de, R: Read<'de>> de::SeqAccess<'de> for DescribedAccess<'_, R> {
                 // list headers
                 if self.counter == 0 {
                     if let StructEncoding::DescribedList = self.de.struct_encoding {
-                        self.field_count += self.consume_list_header()?;
+                        // the count is the peer's: it must not be able to overflow the sum
+                        self.field_count = self
+                            .field_count
+                            .saturating_add(self.consume_list_header()?);
                     }
                 }
                 result
@@ -1931,7 +1934,9 @@ impl<'de, R: Read<'de>> de::MapAccess<'de> for DescribedAccess<'_, R> {
                 let result = seed.deserialize(self.as_mut()).map(Some);
                 if self.counter == 0 {
                     if let StructEncoding::DescribedMap = self.de.struct_encoding {
-                        self.field_count += self.consume_map_header()?;
+                        self.field_count = self
+                            .field_count
+                            .saturating_add(self.consume_map_header()?);
                     }
                 }
                 result
